@@ -302,6 +302,17 @@ func refPickSubset(name string, pool []int, max int) []int {
 	return out
 }
 
+// refPickCombo picks any subset of pool with at most max elements, in pool order.
+func refPickCombo(name string, pool []int, max int) []int {
+	var out []int
+	for _, x := range pool {
+		if len(out) < max && verifChoose(name, 0, 1) == 1 {
+			out = append(out, x)
+		}
+	}
+	return out
+}
+
 func refMin(a, b int) int {
 	if a < b {
 		return a
@@ -313,7 +324,11 @@ func refMin(a, b int) int {
 // any order with RM's canonical proof, and 0..maxAdd fresh additions.
 func (f *refForest) refBlock(v *refView, maxDel, maxAdd int) *refBlockT {
 	b := &refBlockT{}
-	b.delSlots = refPickSubset("del", f.liveSlots(), maxDel)
+	if verifParam("orderedDel", 1) == 1 {
+		b.delSlots = refPickSubset("del", f.liveSlots(), maxDel)
+	} else {
+		b.delSlots = refPickCombo("del", f.liveSlots(), maxDel)
+	}
 	for _, s := range b.delSlots {
 		x := v.leafIdx[s]
 		b.tIdx = append(b.tIdx, x)
